@@ -96,6 +96,24 @@ async def scenarios(R):
         out["S6 genuine cycle (two tasks)"] = str([repr(x)[:50] for x in res])
     except asyncio.TimeoutError:
         out["S6 genuine cycle (two tasks)"] = "DEADLOCK (timeout)"
+    # S7: genuine cycle entered from both ends while each task is suspended in another dependency
+    async def slow1():
+        await asyncio.sleep(0.02); return 1
+    async def slow2():
+        await asyncio.sleep(0.02); return 2
+    s1, s2 = R.Resource(slow1, cache=False), R.Resource(slow2, cache=False)
+    r1, r2 = mk(); rm = R.ResourceManager()
+    r1.get_dependencies = lambda: [("y", s1, None), ("x", r2, None)]
+    r2.get_dependencies = lambda: [("y", s2, None), ("x", r1, None)]
+    r1._factory = r2._factory = None
+    async def f(x=None, y=None):
+        return 0
+    r1._factory = r2._factory = f
+    try:
+        res = await asyncio.wait_for(asyncio.gather(step(rm, r1), step(rm, r2), return_exceptions=True), 1)
+        out["S7 cycle entered from both ends"] = str([repr(x)[:50] for x in res])
+    except asyncio.TimeoutError:
+        out["S7 cycle entered from both ends"] = "DEADLOCK (timeout): the cycle is not reported"
     return out
 
 
